@@ -458,4 +458,69 @@ theorem scanUntil_endsBehind (stop : Byte) (cm : Bool) (iters : Nat) :
         obtain ⟨hf1, he1, ⟨ps, hpre⟩, _⟩ := extract_some hex
         exact scanAfter_endsBehind _ stop cm iters ih s' c' len steps r (Or.inl ⟨ps, hf1, he1, hpre⟩) h hsev
 
+/-! ### `SkipInstance` never ends before the first `;` -/
+
+theorem drop_after_first {a b ps pre : List Byte} {x : Byte} (k : Nat) (ha : ∀ y ∈ a, y ≠ x) (hk : 1 ≤ k)
+    (heq : pre.reverse ++ (a ++ x :: b).take k = ps.reverse ++ [x]) : a.length + 1 ≤ k := by
+  by_cases hlt : a.length + 1 ≤ k
+  · exact hlt
+  · exfalso
+    have hka : k ≤ a.length := by omega
+    rw [List.take_append_of_le_length hka] at heq
+    have hlen : (a.take k).length = k := by simp; omega
+    have h1 : (pre.reverse ++ a.take k).getLast? = some x := by rw [heq]; simp
+    cases hT : (a.take k).getLast? with
+    | none =>
+      have : a.take k = [] := by simpa using hT
+      rw [this] at hlen; simp at hlen; omega
+    | some y =>
+      rw [List.getLast?_append, hT] at h1
+      simp at h1
+      have hm : y ∈ a.take k := List.mem_of_getLast? hT
+      exact ha y (List.mem_of_mem_take hm) h1
+
+/-- on a good stream whose first `;` comes after the bytes `a`, a successful `SkipInstance` leaves at most what follows that `;` -/
+theorem skipInstance_not_before_first_semi (pre a b : List Byte) (sk cm : Bool) (iters : Nat) (rs : LoopRes)
+    (ha : ∀ y ∈ a, y ≠ chSemi)
+    (h : skipInstance cm iters ((a ++ chSemi :: b).length + 2) ⟨pre, a ++ chSemi :: b, false, false, sk⟩ = .ok rs)
+    (hsev : rs.sev = sevNull) : rs.s.rest.length ≤ b.length := by
+  generalize hL : a ++ chSemi :: b = L at h
+  obtain ⟨ps, hp, hg⟩ := scanUntil_endsBehind chSemi cm iters (L.length + 2) _ 0 0 0 rs (by decide) h hsev
+  have hw := skipInstance_keeps cm iters (L.length + 2) _ rs h
+  have hsm : (⟨pre, L, false, false, sk⟩ : IS).m = L.length + 1 := by simp [IS.m]
+  have hsg : (⟨pre, L, false, false, sk⟩ : IS).good = true := by simp [IS.good]
+  have hstrict := scanUntil_strict iters chSemi cm iters (Nat.le_refl _) (L.length + 2) ⟨pre, L, false, false, sk⟩ 0 0 0
+    (by rw [hsm]; omega) hsg rs h
+  have hrf : rs.s.fail = false := by
+    simp [IS.good] at hg; exact hg.2
+  have hrm : rs.s.m = rs.s.rest.length + 1 := by simp [IS.m, hrf]
+  have hlt : rs.s.rest.length + 1 ≤ L.length := by
+    rcases hstrict with hh | hh <;> omega
+  obtain ⟨k0, hk0⟩ := suffix_of_whole (s := ⟨pre, L, false, false, sk⟩) hw (by simp only []; omega)
+  simp only [] at hk0
+  -- the offset, normalised
+  have hk : rs.s.rest = L.drop (L.length - rs.s.rest.length) := by
+    by_cases hle : k0 ≤ L.length
+    · have : rs.s.rest.length = L.length - k0 := by rw [hk0]; simp
+      have : L.length - rs.s.rest.length = k0 := by omega
+      rw [this]; exact hk0
+    · have h0 : rs.s.rest = [] := by rw [hk0]; exact List.drop_eq_nil_of_le (by omega)
+      rw [h0]; simp
+  generalize hkk : L.length - rs.s.rest.length = k at hk
+  have hk1 : 1 ≤ k := by omega
+  have heq : pre.reverse ++ L.take k = ps.reverse ++ [chSemi] := by
+    have e1 : pre.reverse ++ L = ps.reverse ++ chSemi :: rs.s.rest := by
+      have := hw
+      simp only [IS.whole, hp] at this
+      simp at this
+      exact this.symm
+    have e2 : (pre.reverse ++ L.take k) ++ L.drop k = (ps.reverse ++ [chSemi]) ++ L.drop k := by
+      rw [List.append_assoc, List.take_append_drop, e1, hk]
+      simp
+    exact List.append_cancel_right e2
+  rw [← hL] at heq
+  have := drop_after_first k ha hk1 heq
+  have hLl : L.length = a.length + 1 + b.length := by rw [← hL]; simp; omega
+  omega
+
 end StepModel.P21Safe
